@@ -14,7 +14,12 @@ Two theorems about the denotation (`evalTick` / `run`) of a program:
   agree (`partition_independent`).
 
 Partial: the item-at-a-time fusion *inside* a subgraph (pull adaptors that stop pulling early)
-is not modelled — see `level_note` and finding F21.
+is not modelled — see `level_note` and finding F221.  Both theorems are statements about the
+model's *batch* denotation (every node evaluated once per tick on complete input lists): they say
+that this denotation is insensitive to pass-through stages and to the order / grouping of nodes.
+They do not mention pull or push; that the compiled pull/push realisation of each operator
+computes this denotation is tied by differential execution only (and fails for F221).
+The clause "either all compile or all fail to compile" has no theorem: oracle on dfir_lang only.
 -/
 import HvDfir.Lemmas.Prog
 namespace HvDfir
@@ -269,9 +274,9 @@ example :
   · intro m hm; simp at hm; rcases hm with rfl | rfl | rfl <;> simp
   · intro r hr; simp at hr; subst hr; simp
 
-/-! ### the part the batch denotation does not cover: fusion inside a subgraph (finding F22) -/
+/-! ### the part the batch denotation does not cover: fusion inside a subgraph (finding F221) -/
 
-/-- **Refuted clause (F22).** When a lazily evaluated stateful operator (`enumerate::<'static>`)
+/-- **Refuted clause (F221).** When a lazily evaluated stateful operator (`enumerate::<'static>`)
     sits in the same pull chain as a consumer that stops pulling early (`chain_first_n(1)`), it
     only sees the items that were pulled; with a handoff in between it sees the whole tick input.
     `fusedEnumChainFirstN` transcribes the fused code path; the two programs — which differ only
